@@ -219,6 +219,23 @@ func (c *Ctx) flagTable(fn *ssa.Function) (rows []FlagRow, problems []string) {
 				problems = append(problems, fmt.Sprintf("%s: the test guarding %s is not a recognised single-bit test (%s)", shortFn(fn), field, c.P.RelPos(st.Pos())))
 				continue
 			}
+			// "exactly when its bit is set": the test itself must not be reached only over one arm of a test of another bit
+			for _, d := range fn.Blocks {
+				if d == p || len(d.Instrs) == 0 {
+					continue
+				}
+				dif, isIf := d.Instrs[len(d.Instrs)-1].(*ssa.If)
+				if !isIf {
+					continue
+				}
+				if _, obit, _, isBit := decodeBitTest(dif.Cond); isBit && obit != bit {
+					for i := range d.Succs {
+						if edgeDominates(d, i, p) {
+							problems = append(problems, fmt.Sprintf("%s: VIOLATED the test of bit %d that sets %s is reached only over one arm of the test of bit %d (%s): the flag also depends on another bit, not exactly on its own", shortFn(fn), bit, field, obit, c.P.RelPos(st.Pos())))
+						}
+					}
+				}
+			}
 			onTrue := p.Succs[0] == b
 			// field becomes `val` when (bit set == whenSet) == onTrue
 			bitSetMeans := whenSet == onTrue // store happens when the bit is set
